@@ -159,6 +159,19 @@ def _vec(v):
     return np.asarray(v, dtype=float).reshape(-1)
 
 
+def _small_int_inputs(snap):
+    for f in snap:
+        for v in f.values():
+            dt = getattr(getattr(v, "__wrapped__", v), "dtype", None)
+            try:
+                if dt is not None and np.dtype(dt).kind in "iu" and np.dtype(dt).itemsize < 8:
+                    return True
+            except TypeError:
+                if str(dt).lower() in ("int8", "int16", "int32", "uint8", "uint16", "uint32"):
+                    return True
+    return False
+
+
 @installer("P4_column_product", MAT)
 def p4(st):
     from formulaic.materializers import base, narwhals as nwm, pandas as pdm
@@ -186,7 +199,10 @@ def p4(st):
                     got = _vec(out[nm])
                     tol = 1e-9 * max(1.0, float(np.nanmax(np.abs(exp[nm]))) if exp[nm].size else 1.0)
                     if got.shape != np.shape(exp[nm]) or not np.allclose(got, exp[nm], equal_nan=True, rtol=1e-9, atol=tol):
-                        breach("P4_column_product", f"column {nm!r} != scale({scale}) x product of its factor columns")
+                        if _small_int_inputs(snap):  # fixed-width integer arithmetic (finding K9), reported under its own name
+                            breach("P4_column_product", f"column {nm!r}: factor columns of a small integer dtype are multiplied in that width", mech="P4_small_integer_wrap")
+                        else:
+                            breach("P4_column_product", f"column {nm!r} != scale({scale}) x product of its factor columns")
                         return
 
             guarded(st, body)
